@@ -103,6 +103,505 @@ pub(crate) fn t2_wrap_width() {
     std::mem::forget(slot);
 }
 
+
+// ---------------------------------------------------------------------
+// T3  BorderHoriz junction algebra (C05)
+// ---------------------------------------------------------------------
+
+fn seg_code(s: BorderSegHoriz) -> u8 {
+    match s {
+        BorderSegHoriz::Straight => 0,
+        BorderSegHoriz::JoinAbove => 1,
+        BorderSegHoriz::JoinBelow => 2,
+        BorderSegHoriz::JoinCross => 3,
+        BorderSegHoriz::StraightVert => 4,
+    }
+}
+fn seg_of(c: u8) -> BorderSegHoriz {
+    match c {
+        0 => BorderSegHoriz::Straight,
+        1 => BorderSegHoriz::JoinAbove,
+        2 => BorderSegHoriz::JoinBelow,
+        3 => BorderSegHoriz::JoinCross,
+        _ => BorderSegHoriz::StraightVert,
+    }
+}
+/// Reference: the glyph class is exactly (bar above, bar below).
+fn expect_code(above: bool, below: bool) -> u8 {
+    (above as u8) | ((below as u8) << 1)
+}
+
+const T3_N: usize = 6;
+
+fn any_seg() -> (BorderSegHoriz, u8) {
+    let c: u8 = kani::any();
+    kani::assume(c <= 4);
+    (seg_of(c), c)
+}
+
+/// One join_above / join_below at any position of a 6-cell rule whose cells
+/// are in an arbitrary state: only the joined cell changes, and it gains
+/// exactly the new bar (a stacked-row separator absorbs joins).  This is the
+/// inductive step for every sequence of joins: a cell's kind is always the
+/// pair (bar above, bar below) of the joins applied to it.
+#[cfg_attr(kani, kani::proof)]
+#[cfg_attr(kani, kani::unwind(3))]
+pub(crate) fn t3_border_join_step() {
+    let (s0, c0) = any_seg();
+    let (s1, c1) = any_seg();
+    let (s2, c2) = any_seg();
+    let (s3, c3) = any_seg();
+    let (s4, c4) = any_seg();
+    let (s5, c5) = any_seg();
+    let pre = [c0, c1, c2, c3, c4, c5];
+    let mut b: BorderHoriz<u8> = BorderHoriz {
+        segments: vec![s0, s1, s2, s3, s4, s5],
+        tag: 7u8,
+    };
+    let up: bool = kani::any();
+    let x: usize = kani::any();
+    kani::assume(x < T3_N);
+    if up {
+        b.join_above(x);
+    } else {
+        b.join_below(x);
+    }
+    assert!(b.segments.len() == T3_N, "joins inside the rule do not stretch it");
+    let i: usize = kani::any();
+    kani::assume(i < T3_N);
+    let got = seg_code(b.segments[i]);
+    let want = if i != x || pre[i] == 4 {
+        pre[i]
+    } else if up {
+        pre[i] | 1
+    } else {
+        pre[i] | 2
+    };
+    assert!(got == want);
+    kani::cover!(i == x && pre[i] == 2 && up);
+    kani::cover!(i == x && pre[i] == 4);
+    kani::cover!(i != x);
+    assert!(b.tag == 7);
+    std::mem::forget(b);
+}
+
+/// Joining beyond the end stretches with straight cells only.
+#[cfg_attr(kani, kani::proof)]
+#[cfg_attr(kani, kani::unwind(6))]
+pub(crate) fn t3_border_stretch() {
+    let mut b: BorderHoriz<u8> = BorderHoriz::new(2, 0u8);
+    let x: usize = kani::any();
+    kani::assume(x < 5);
+    let up: bool = kani::any();
+    if up {
+        b.join_above(x);
+    } else {
+        b.join_below(x);
+    }
+    let want_len = if x + 1 > 2 { x + 1 } else { 2 };
+    assert!(b.segments.len() == want_len);
+    let i: usize = kani::any();
+    kani::assume(i < want_len);
+    let code = seg_code(b.segments[i]);
+    if i == x {
+        assert!(code == if up { 1 } else { 2 });
+    } else {
+        assert!(code == 0);
+    }
+    kani::cover!(x >= 3 && i < x && i >= 2);
+    std::mem::forget(b);
+}
+
+/// merge_from_below / merge_from_above of a 3-cell partial rule with symbolic
+/// cells at a symbolic offset into a 6-cell rule with symbolic cells.
+#[cfg_attr(kani, kani::proof)]
+#[cfg_attr(kani, kani::unwind(5))]
+pub(crate) fn t3_border_merge() {
+    let (s0, c0) = any_seg();
+    let (s1, c1) = any_seg();
+    let (s2, c2) = any_seg();
+    let (s3, c3) = any_seg();
+    let (s4, c4) = any_seg();
+    let (s5, c5) = any_seg();
+    let pre = [c0, c1, c2, c3, c4, c5];
+    let mut b: BorderHoriz<u8> = BorderHoriz {
+        segments: vec![s0, s1, s2, s3, s4, s5],
+        tag: 0u8,
+    };
+    let (o0, d0) = any_seg();
+    let (o1, d1) = any_seg();
+    let (o2, d2) = any_seg();
+    let oc = [d0, d1, d2];
+    let other: BorderHoriz<u8> = BorderHoriz {
+        segments: vec![o0, o1, o2],
+        tag: 0u8,
+    };
+    let pos: usize = kani::any();
+    kani::assume(pos <= T3_N - 3);
+    let from_below: bool = kani::any();
+    if from_below {
+        b.merge_from_below(&other, pos);
+    } else {
+        b.merge_from_above(&other, pos);
+    }
+    assert!(b.segments.len() == T3_N);
+    let i: usize = kani::any();
+    kani::assume(i < T3_N);
+    let got = seg_code(b.segments[i]);
+    // bars of `other` are where it has any junction
+    let bar = i >= pos && i < pos + 3 && {
+        let c = oc[i - pos];
+        c == 1 || c == 2 || c == 3
+    };
+    let want = if pre[i] == 4 {
+        4 // a stacked-row separator absorbs joins
+    } else if !bar {
+        pre[i]
+    } else if from_below {
+        pre[i] | 2
+    } else {
+        pre[i] | 1
+    };
+    assert!(got == want);
+    kani::cover!(bar && pre[i] == 1 && from_below);
+    kani::cover!(pre[i] == 4 && bar);
+    std::mem::forget(b);
+    std::mem::forget(other);
+}
+
+/// merge_from_below / merge_from_above of a 2-cell partial rule with symbolic
+/// cells at a symbolic offset into a 4-cell rule with symbolic cells.
+#[cfg_attr(kani, kani::proof)]
+#[cfg_attr(kani, kani::unwind(4))]
+pub(crate) fn t3_border_merge_small() {
+    let (s0, c0) = any_seg();
+    let (s1, c1) = any_seg();
+    let (s2, c2) = any_seg();
+    let (s3, c3) = any_seg();
+    let pre = [c0, c1, c2, c3];
+    let mut b: BorderHoriz<u8> = BorderHoriz {
+        segments: vec![s0, s1, s2, s3],
+        tag: 0u8,
+    };
+    let (o0, d0) = any_seg();
+    let (o1, d1) = any_seg();
+    let oc = [d0, d1];
+    let other: BorderHoriz<u8> = BorderHoriz {
+        segments: vec![o0, o1],
+        tag: 0u8,
+    };
+    let pos: usize = kani::any();
+    kani::assume(pos <= 4 - 2);
+    let from_below: bool = kani::any();
+    if from_below {
+        b.merge_from_below(&other, pos);
+    } else {
+        b.merge_from_above(&other, pos);
+    }
+    assert!(b.segments.len() == 4);
+    let i: usize = kani::any();
+    kani::assume(i < 4);
+    let got = seg_code(b.segments[i]);
+    // bars of `other` are where it has any junction
+    let bar = i >= pos && i < pos + 2 && {
+        let c = oc[i - pos];
+        c == 1 || c == 2 || c == 3
+    };
+    let want = if pre[i] == 4 {
+        4 // a stacked-row separator absorbs joins
+    } else if !bar {
+        pre[i]
+    } else if from_below {
+        pre[i] | 2
+    } else {
+        pre[i] | 1
+    };
+    assert!(got == want);
+    kani::cover!(bar && pre[i] == 1 && from_below);
+    kani::cover!(pre[i] == 4 && bar);
+    std::mem::forget(b);
+    std::mem::forget(other);
+}
+
+/// Glyphs: each cell kind maps to the box-drawing character for its bars,
+/// and the vertical-lines string has a bar exactly under an upward junction.
+#[cfg_attr(kani, kani::proof)]
+#[cfg_attr(kani, kani::unwind(4))]
+pub(crate) fn t3_border_glyphs() {
+    let (s0, c0) = any_seg();
+    let b: BorderHoriz<u8> = BorderHoriz {
+        segments: vec![s0],
+        tag: 0u8,
+    };
+    let s = b.to_string();
+    let glyph = match c0 {
+        0 => '─',
+        1 => '┴',
+        2 => '┬',
+        3 => '┼',
+        _ => '/',
+    };
+    let mut it = s.chars();
+    assert!(it.next() == Some(glyph));
+    assert!(it.next().is_none());
+    kani::cover!(c0 == 3);
+    kani::cover!(c0 == 4);
+    std::mem::forget(b);
+    std::mem::forget(s);
+}
+
+#[cfg_attr(kani, kani::proof)]
+#[cfg_attr(kani, kani::unwind(4))]
+pub(crate) fn t3_border_vertical_lines() {
+    let (s0, c0) = any_seg();
+    let b: BorderHoriz<u8> = BorderHoriz {
+        segments: vec![s0],
+        tag: 0u8,
+    };
+    let v = b.to_vertical_lines_above();
+    let mut iv = v.chars();
+    let bar = if c0 == 1 || c0 == 3 { '│' } else { ' ' };
+    assert!(iv.next() == Some(bar));
+    assert!(iv.next().is_none());
+    kani::cover!(c0 == 3);
+    kani::cover!(c0 == 2);
+    std::mem::forget(b);
+    std::mem::forget(v);
+}
+
+// ---------------------------------------------------------------------
+// T4  TaggedLine bookkeeping: len == display width, text and tags preserved,
+//     adjacent pieces merge iff their tags are equal (C02, C03, C09, C15)
+// ---------------------------------------------------------------------
+
+const T4_PIECES: [&str; 4] = ["ab", "字", "e\u{301}", ""];
+
+fn t4_piece(i: u8) -> &'static str {
+    match i {
+        0 => T4_PIECES[0],
+        1 => T4_PIECES[1],
+        2 => T4_PIECES[2],
+        _ => T4_PIECES[3],
+    }
+}
+fn t4_width(i: u8) -> usize {
+    match i {
+        0 => 2,
+        1 => 2,
+        2 => 1,
+        _ => 0,
+    }
+}
+
+fn n_str_elems(l: &TaggedLine<u8>) -> usize {
+    let mut n = 0;
+    for e in l.v.iter() {
+        if let TaggedLineElement::Str(_) = e {
+            n += 1;
+        }
+    }
+    n
+}
+
+fn t4_first(l: &TaggedLine<u8>) -> (&str, u8) {
+    if let Some(TaggedLineElement::Str(ts)) = l.v.first() {
+        (ts.s.as_str(), ts.tag)
+    } else {
+        panic!("first element is not a string");
+    }
+}
+fn t4_last(l: &TaggedLine<u8>) -> (&str, u8) {
+    if let Some(TaggedLineElement::Str(ts)) = l.v.last() {
+        (ts.s.as_str(), ts.tag)
+    } else {
+        panic!("last element is not a string");
+    }
+}
+
+/// push_str of a wide piece after an ASCII piece: len bookkeeping, merge iff
+/// equal tags, order and tags preserved.  Text concrete, tags symbolic.
+#[cfg_attr(kani, kani::proof)]
+#[cfg_attr(kani, kani::unwind(8))]
+#[cfg_attr(kani, kani::stub(unicode_width::tables::str_width, crate::verif_common::stub_str_width))]
+#[cfg_attr(kani, kani::stub(unicode_width::tables::single_char_width, crate::verif_common::stub_single_char_width))]
+pub(crate) fn t4_tagged_push_str() {
+    let t0: u8 = kani::any();
+    let t1: u8 = kani::any();
+    let mut l: TaggedLine<u8> = TaggedLine::new();
+    l.push_str(TaggedString { s: "ab".to_string(), tag: t0 });
+    assert!(l.len == 2);
+    l.push_str(TaggedString { s: "字".to_string(), tag: t1 });
+    assert!(l.len == 4);
+    // an empty piece changes nothing
+    l.push_str(TaggedString { s: String::new(), tag: kani::any() });
+    assert!(l.len == 4);
+    let n = n_str_elems(&l);
+    assert!(n == if t0 == t1 { 1 } else { 2 });
+    assert!(l.v.len() == n);
+    let (fs, ft) = t4_first(&l);
+    let (ls, lt) = t4_last(&l);
+    assert!(ft == t0 && lt == t1);
+    if t0 == t1 {
+        assert!(fs.len() == 5);
+        assert!(fs.as_bytes()[0] == b'a' && fs.as_bytes()[1] == b'b' && fs.as_bytes()[2] == 0xe5);
+    } else {
+        assert!(fs.len() == 2 && ls.len() == 3);
+        assert!(fs.as_bytes()[0] == b'a' && ls.as_bytes()[0] == 0xe5);
+    }
+    kani::cover!(t0 == t1);
+    kani::cover!(t0 != t1);
+    std::mem::forget(l);
+}
+
+/// insert_front (used for list/quote prefixes): len, merge iff equal tags, order.
+#[cfg_attr(kani, kani::proof)]
+#[cfg_attr(kani, kani::unwind(8))]
+#[cfg_attr(kani, kani::stub(unicode_width::tables::str_width, crate::verif_common::stub_str_width))]
+#[cfg_attr(kani, kani::stub(unicode_width::tables::single_char_width, crate::verif_common::stub_single_char_width))]
+pub(crate) fn t4_tagged_insert_front() {
+    let t0: u8 = kani::any();
+    let t1: u8 = kani::any();
+    let mut l: TaggedLine<u8> = TaggedLine::new();
+    l.push_str(TaggedString { s: "ab".to_string(), tag: t0 });
+    l.insert_front(TaggedString { s: "）".to_string(), tag: t1 });
+    assert!(l.len == 4);
+    let n = n_str_elems(&l);
+    assert!(n == if t0 == t1 { 1 } else { 2 });
+    let (fs, ft) = t4_first(&l);
+    let (ls, lt) = t4_last(&l);
+    assert!(ft == t1 && lt == t0);
+    if t0 == t1 {
+        assert!(fs.len() == 5);
+    } else {
+        assert!(fs.len() == 3 && ls.len() == 2);
+    }
+    kani::cover!(t0 == t1);
+    kani::cover!(t0 != t1);
+    std::mem::forget(l);
+}
+
+/// push_char: width by character class (ASCII 1, wide 2, combining 0), merge iff equal tags.
+#[cfg_attr(kani, kani::proof)]
+#[cfg_attr(kani, kani::unwind(8))]
+#[cfg_attr(kani, kani::stub(unicode_width::tables::str_width, crate::verif_common::stub_str_width))]
+#[cfg_attr(kani, kani::stub(unicode_width::tables::single_char_width, crate::verif_common::stub_single_char_width))]
+pub(crate) fn t4_tagged_push_char() {
+    let t0: u8 = kani::any();
+    let t1: u8 = kani::any();
+    let mut l: TaggedLine<u8> = TaggedLine::new();
+    l.push_str(TaggedString { s: "ab".to_string(), tag: t0 });
+    let ci: u8 = kani::any();
+    kani::assume(ci < 3);
+    let w = match ci {
+        0 => {
+            l.push_char('x', &t1);
+            1
+        }
+        1 => {
+            l.push_char('字', &t1);
+            2
+        }
+        _ => {
+            l.push_char('\u{301}', &t1);
+            0
+        }
+    };
+    assert!(l.len == 2 + w);
+    let n = n_str_elems(&l);
+    assert!(n == if t0 == t1 { 1 } else { 2 });
+    let (ls, lt) = t4_last(&l);
+    assert!(lt == t1);
+    let clen = match ci {
+        0 => 1,
+        1 => 3,
+        _ => 2,
+    };
+    assert!(ls.len() == if t0 == t1 { 2 + clen } else { clen });
+    kani::cover!(ci == 2 && t0 != t1);
+    kani::cover!(ci == 1 && t0 == t1);
+    std::mem::forget(l);
+}
+
+/// A fragment marker has no width, is not text, and separates pieces: no
+/// merge across it even when the tags are equal.
+#[cfg_attr(kani, kani::proof)]
+#[cfg_attr(kani, kani::unwind(6))]
+#[cfg_attr(kani, kani::stub(unicode_width::tables::str_width, crate::verif_common::stub_str_width))]
+#[cfg_attr(kani, kani::stub(unicode_width::tables::single_char_width, crate::verif_common::stub_single_char_width))]
+pub(crate) fn t4_tagged_frag_consume() {
+    let t0: u8 = kani::any();
+    let t1: u8 = kani::any();
+    let mut w: TaggedLine<u8> = TaggedLine::new();
+    w.push(TaggedLineElement::FragmentStart(String::new()));
+    assert!(w.len == 0 && w.is_empty() && w.v.len() == 1);
+    w.push(TaggedLineElement::Str(TaggedString { s: "cd".to_string(), tag: t0 }));
+    assert!(w.len == 2 && !w.is_empty() && w.v.len() == 2);
+    w.push(TaggedLineElement::FragmentStart(String::new()));
+    w.push(TaggedLineElement::Str(TaggedString { s: "e".to_string(), tag: t1 }));
+    assert!(w.len == 3);
+    assert!(w.v.len() == 4, "no merging across a fragment marker");
+    kani::cover!(t0 == t1);
+    std::mem::forget(w);
+}
+
+
+// ---------------------------------------------------------------------
+// T5  annotation stack: push on start_*, pop on end_*, outermost first;
+//     a sub-renderer starts from a copy (C09)
+// ---------------------------------------------------------------------
+
+fn t5_start(r: &mut SubRenderer<RichDecorator>, kind: u8) {
+    let res = match kind {
+        0 => r.start_emphasis(),
+        1 => r.start_strong(),
+        2 => r.start_code(),
+        _ => r.start_superscript(),
+    };
+    assert!(res.is_ok());
+}
+fn t5_end(r: &mut SubRenderer<RichDecorator>, kind: u8) {
+    let res = match kind {
+        0 => r.end_emphasis(),
+        1 => r.end_strong(),
+        2 => r.end_code(),
+        _ => r.end_superscript(),
+    };
+    assert!(res.is_ok());
+}
+fn t5_ann_is(a: &RichAnnotation, kind: u8) -> bool {
+    match (a, kind) {
+        (RichAnnotation::Emphasis, 0) => true,
+        (RichAnnotation::Strong, 1) => true,
+        (RichAnnotation::Code, 2) => true,
+        (RichAnnotation::Default, 3) => true, // superscript carries the default annotation
+        _ => false,
+    }
+}
+
+#[cfg_attr(kani, kani::proof)]
+#[cfg_attr(kani, kani::unwind(3))]
+pub(crate) fn t5_annotation_stack() {
+    let k0: u8 = kani::any();
+    kani::assume(k0 < 4);
+    let width: usize = kani::any();
+    kani::assume(width >= 1);
+    let opts = RenderOptions::default();
+    let mut r = SubRenderer::new(width, opts, RichDecorator::new());
+    r.ann_stack.push(RichAnnotation::Strikeout); // enclosing element
+    t5_start(&mut r, k0);
+    assert!(r.ann_stack.len() == 2);
+    assert!(matches!(r.ann_stack[0], RichAnnotation::Strikeout), "outermost first");
+    assert!(t5_ann_is(&r.ann_stack[1], k0));
+    t5_end(&mut r, k0);
+    assert!(r.ann_stack.len() == 1, "no annotation leaks past its element");
+    assert!(matches!(r.ann_stack[0], RichAnnotation::Strikeout));
+    kani::cover!(k0 == 2);
+    kani::cover!(k0 == 3);
+    std::mem::forget(r);
+}
+
 crate::verif_common::registry! {
     t1_width_minus, t2_wrap_width,
+    t3_border_join_step, t3_border_stretch, t3_border_merge, t3_border_merge_small, t3_border_glyphs, t3_border_vertical_lines,
+    t4_tagged_push_str, t4_tagged_insert_front, t4_tagged_push_char, t4_tagged_frag_consume, t5_annotation_stack, 
 }
